@@ -13,7 +13,20 @@ REQUIRED = ["Never.C06.context_error_propagates", "Never.C06.context_never_accep
             "Never.C06.rejects_operator_incompatible", "Never.C06.rejects_nonbool_condition",
             "Never.C06.rejects_result_kind", "Never.C06.rejects_match_missing_partial",
             "Never.C06.rejects_match_missing_counterexample", "Never.C06.rejects_unknown_exception",
-            "Never.C06.check_sound_partial"]
+            "Never.C06.check_sound_partial",
+            # D11
+            "Never.C06.rejects_branch_mismatch", "Never.C06.rejects_branch_tuples", "Never.C06.rejects_branch_ranges",
+            "Never.C06.rejects_branch_arrays", "Never.C06.rejects_branch_slices", "Never.C06.rejects_branch_functions",
+            "Never.C06.rejects_match_arms_mismatch", "Never.C06.param_cmp_long_double_false_rejection_counterexample",
+            "Never.C06.rejects_tuple_arity", "Never.C06.rejects_tuple_member_kind", "Never.C06.rejects_tuple_index",
+            "Never.C06.rejects_array_shape", "Never.C06.rejects_forin_iterator_assign",
+            "Never.C06.rejects_forin_range_iterator_assign", "Never.C06.rejects_pipe_arity",
+            "Never.C06.rejects_pipe_into_nullary", "Never.C06.rejects_pipe_tuple_arity",
+            "Never.C06.rejects_missing_enumerator",
+            "Never.C06.const_lost_through_slice_assign_accepted_counterexample",
+            "Never.C06.const_lost_through_slice_forin_accepted_counterexample",
+            "Never.C06.const_tuple_members_to_var_params_accepted_counterexample",
+            "Never.C06.catch_clause_const_for_var_result_accepted_counterexample"]
 
 
 def check(tier, seed):
@@ -39,7 +52,8 @@ def check(tier, seed):
         evaluations=st["programs"] + st["mutants"] + st.get("samples_run", 0) + st.get("corpus", 0),
         distinct_nontrivial=st["mutants_agree"],
         rule="per seed: 1 generated well-typed core program P + one mutant per applicable catalogue rule "
-             "(11 rules + 2 known-defect rules), each placed at a statement position chosen with weight on deep contexts "
+             "(22 rules — since D11 also: tuple / range / array branches, tuple arity and index, ragged array literal, for-in iterator "
+             "assignment, pipe arity (scalar and tuple), match after an else-match, long/double element types — + 4 known-defect rules), each placed at a statement position chosen with weight on deep contexts "
              "(nested function, closure, comprehension, match arm, catch clause); compared: accept/reject, line and kind of the "
              "first `error:`; first the 29 sample*.nev.err negative samples (exact diagnostics) and corpus/tc",
         samples=samples, c06=st, proof_s=round(t1 - t0, 1))
